@@ -4,7 +4,7 @@ CONSTANTS
   TypeTab <- ScaledTypes
   GraphLo = 1 GraphHi = 2 MaxBits = 6
   GPrec = 2 ByteMax = 20 DecLimit = 9
-  PrintTypes = {"b", "n", "t", "f"}
+  PrintTypes = {"b", "t", "f"}
   IntFormats <- IntFormatsQ
   FltFormats <- FltFormatsQ
   Lefts = {0, 2, 3, 5, 12}
